@@ -25,5 +25,9 @@ for k in kf:
         open(V + '/' + fn, 'wb').write(diff)
     idx.append({'id': 'revert-' + k['id'], 'property': k['property'], 'patch': fn, 'reverse': True,
                 'expect_rules': [k['rule']], 'kind': 'reverse of repair commit %s' % k['commit']})
+hand = json.load(open(V + '/witnesses/hand/index.json'))
+for name, h in sorted(hand.items()):
+    idx.append({'id': 'hand-' + name, 'property': h['property'], 'patch': 'witnesses/hand/%s.diff' % name, 'reverse': False,
+                'expect_rules': h['rules'], 'kind': 'hand-made variant: ' + h['what']})
 json.dump(idx, open(V + '/witnesses/index.json', 'w'), indent=1)
 print(len(idx), 'witnesses')
